@@ -69,6 +69,12 @@ Proof.
   cbn in *; subst m; exact IH.
 Qed.
 
+Lemma seen_beyond_cons : forall v o m b h,
+  seen_beyond v o ((m, b) :: h) = (match m with Timed t => beyond v (rel v o t) | Untimed => false end) || seen_beyond v o h.
+Proof. reflexivity. Qed.
+Lemma some_accepted_cons : forall m b h, some_accepted ((m, b) :: h) = b || some_accepted h.
+Proof. reflexivity. Qed.
+
 Definition next_last (m : msg) (last : option Z) : option Z := match m with Timed t => Some t | Untimed => last end.
 Definition step_sorted (m : msg) (last : option Z) : Prop :=
   match m, last with Timed t, Some l => l <= t | _, _ => True end.
@@ -85,22 +91,18 @@ Proof.
     assert (Hn : next_t0 r Untimed = t0 r) by (unfold next_t0; destruct (t0 r); reflexivity).
     unfold verdict, next_ended; rewrite Hn; cbn [spec_decide next_last].
     set (sb := seen_beyond (cfg r) (t0 r) hist) in *.
-    assert (Hv : negb (ended r) && (is_none (start r) || started r) = negb sb && (is_none (start r) || some_accepted hist)).
-    { rewrite <- S. destruct (ended r) eqn:He, sb eqn:Hb; cbn; try reflexivity.
-      - discriminate (E1 eq_refl).
-      - destruct (is_none (start r) || started r) eqn:Hx; [|reflexivity]. discriminate (E2 eq_refl eq_refl). }
-    split; [exact Hv|].
-    constructor; cbn [cfg start stop absolute t0 started ended some_accepted seen_beyond existsb fst snd].
-    + rewrite S. apply orb_comm.
-    + rewrite orb_false_r. fold (cfg r). exact E1.
-    + fold (cfg r). change (existsb _ hist) with sb. rewrite orb_false_r.
-      intros Hb Hx. destruct (ended r) eqn:He; [reflexivity|]. cbn in Hx.
-      apply E2; [exact Hb|]. destruct (is_none (start r)); [reflexivity|]. cbn in *.
-      destruct (started r); [reflexivity|]. cbn in Hx. exact Hx.
-    + fold (cfg r). exact B.
-    + fold (cfg r). intros Hst Hno. apply L; [|exact Hno].
-      destruct (started r); [reflexivity|]. rewrite Hno in Hst. cbn in Hst.
-      rewrite andb_false_r in Hst. exact Hst.
+    rewrite <- S. cbn [lo cfg].
+    split.
+    { clear B L O H; clearbody sb. destruct (ended r), sb, (is_none (start r)), (started r); cbn in *; intuition congruence. }
+    constructor; change (cfg (mktr _ _ _ _ _ _ _)) with (cfg r);
+      cbn [start stop absolute t0 started ended]; rewrite ?seen_beyond_cons, ?some_accepted_cons;
+      fold sb; rewrite <- ?S; rewrite ?orb_false_l, ?orb_false_r.
+    + clear B L O H; clearbody sb. destruct (ended r), sb, (is_none (start r)), (started r); cbn in *; intuition congruence.
+    + exact E1.
+    + clear B L O H; clearbody sb. destruct (ended r), sb, (is_none (start r)), (started r); cbn in *; intuition congruence.
+    + exact B.
+    + intros Hst Hno. apply L; [|exact Hno].
+      clear B L O H; clearbody sb. destruct (ended r), sb, (is_none (start r)), (started r); cbn in *; intuition congruence.
     + exact O.
     + intros Ho. constructor; [reflexivity|]. apply H. exact Ho.
   - (* timed *)
@@ -122,33 +124,895 @@ Proof.
       - destruct (L Hst eq_refl) as [l [Hl Hg]]. eapply ge_lo_mono; [apply Hrel; exact Hl|exact Hg]. }
     assert (Hhi : sb = true -> lt_hi (stop r) c = false).
     { intros Hb. destruct (B Hb) as [l [Hl Hg]]. eapply lt_hi_anti; [apply Hrel; exact Hl|exact Hg]. }
-    assert (Hv : verdict r (Timed t) = in_iv (cfg r) c).
-    { unfold verdict. fold o'. fold c. destruct (ended r) eqn:He; [|reflexivity].
-      cbn. unfold in_iv; cbn [lo hi cfg]. rewrite (Hhi (E1 eq_refl)). apply andb_false_r. }
-    split; [rewrite Hv; reflexivity|].
-    unfold next_ended. fold o'. fold c. rewrite Hv. unfold in_iv; cbn [lo hi cfg].
-    constructor; cbn [cfg start stop absolute t0 started ended some_accepted seen_beyond existsb fst snd];
-      fold (cfg r); fold c; unfold beyond; cbn [hi cfg]; fold (cfg r); rewrite ?Hsb; fold sb.
-    + rewrite S. apply orb_comm.
-    + intros He. destruct (lt_hi (stop r) c) eqn:Hl; [|reflexivity]. cbn.
-      destruct sb eqn:Hb; [reflexivity|].
-      destruct (ended r) eqn:Hed; [exact (E1 eq_refl)|]. cbn in He.
-      rewrite !andb_false_r in He. cbn in He. rewrite andb_true_r in He. cbn in He.
-      destruct (started r) eqn:Hst; [|rewrite andb_false_r in He; discriminate].
-      rewrite (Hlo eq_refl) in He. discriminate.
-    + intros Hb Hx.
-      destruct (ended r) eqn:Hed; [reflexivity|]. cbn.
-      destruct (lt_hi (stop r) c) eqn:Hl.
-      * cbn in Hb. rewrite (Hhi Hb) in Hl. discriminate.
-      * rewrite andb_false_r in *. cbn in *. rewrite orb_false_r in Hx.
-        destruct (ge_lo (start r) c) eqn:Hg; [reflexivity|]. cbn.
-        destruct (started r) eqn:Hst; [rewrite (Hlo eq_refl) in Hg; discriminate|].
-        cbn in Hx. destruct (start r); [discriminate|]. cbn in Hg. discriminate.
-    + intros Hb. exists t. split; [reflexivity|]. fold c.
-      destruct (lt_hi (stop r) c) eqn:Hl; [|reflexivity]. cbn in Hb. rewrite (Hhi Hb) in Hl. discriminate.
-    + intros Hst Hno. exists t. split; [reflexivity|]. fold c.
-      destruct (started r) eqn:Hsd; [exact (Hlo eq_refl)|]. cbn in Hst.
-      apply andb_prop in Hst. tauto.
+    assert (Hno : is_none (start r) = true -> ge_lo (start r) c = true).
+    { destruct (start r); [discriminate|reflexivity]. }
+    clear B L Hrel.
+    unfold next_ended, verdict. fold o'. fold c. unfold in_iv; cbn [lo hi cfg spec_decide].
+    fold (cfg r). fold c. unfold in_iv; cbn [lo hi cfg].
+    set (g := ge_lo (start r) c) in *. set (h := lt_hi (stop r) c) in *.
+    split.
+    { clear O H; clearbody sb g h. destruct (ended r), sb, g, h; cbn in *; intuition congruence. }
+    constructor; change (cfg (mktr _ _ _ _ _ _ _)) with (cfg r);
+      cbn [start stop absolute t0 started ended]; rewrite ?seen_beyond_cons, ?some_accepted_cons;
+      fold c; unfold beyond; cbn [hi cfg]; fold h; rewrite ?Hsb; fold sb; rewrite <- ?S.
+    + clear O H; clearbody sb g h. destruct (ended r), (started r), sb, g, h; cbn in *; intuition congruence.
+    + clear O H; clearbody sb g h. destruct (ended r), (started r), sb, g, h; cbn in *; intuition congruence.
+    + clear O H; clearbody sb g h. destruct (ended r), (started r), sb, g, h, (is_none (start r)); cbn in *; intuition congruence.
+    + intros Hb. exists t. split; [reflexivity|]. fold c. fold h.
+      clear O H; clearbody sb g h. destruct (ended r), (started r), sb, g, h; cbn in *; intuition congruence.
+    + intros Hst Hn. exists t. split; [reflexivity|]. fold c. fold g.
+      clear O H; clearbody sb g h. destruct (ended r), (started r), sb, g, h; cbn in *; intuition congruence.
     + intros l _. unfold o', next_t0. destruct (t0 r); discriminate.
     + unfold o', next_t0. destruct (t0 r); discriminate.
 Qed.
+
+Lemma spec_go_cfg : forall ops v v' o h,
+  lo v = lo v' -> hi v = hi v' -> iabs v = iabs v' -> spec_go v o h ops = spec_go v' o h ops.
+Proof.
+  intros ops [l1 h1 a1 o1] [l2 h2 a2 o2] o h; cbn; intros -> -> ->.
+  revert o h; induction ops as [|[m|] tl IH]; intros o h; cbn [spec_go]; [reflexivity| |apply IH].
+  f_equal; apply IH.
+Qed.
+
+Lemma run_cons_msg : forall r m tl,
+  fst (run r (Msg m :: tl)) = snd (is_in_range r m) :: fst (run (fst (is_in_range r m)) tl).
+Proof.
+  intros; unfold run, is_in_range; cbn [run_gen].
+  destruct (is_in_range_gen current r m) as [r' b]. cbn [fst snd]. destruct (run_gen current r' tl); reflexivity.
+Qed.
+Lemma run_cons_restart : forall r tl, run r (Restart :: tl) = run (restart r) tl.
+Proof. reflexivity. Qed.
+
+Lemma inv_clear : forall r, started r = false -> ended r = false -> Inv r [] None.
+Proof.
+  intros r H1 H2; constructor; cbn; try congruence; try discriminate.
+  intros; constructor.
+Qed.
+
+Lemma run_spec_core : forall ops r hist last,
+  specified r = true -> Inv r hist last -> nondecr last ops = true ->
+  fst (run r ops) = spec_go (cfg r) (t0 r) hist ops.
+Proof.
+  induction ops as [|[m|] tl IH]; intros r hist last Hs HI Hnd.
+  - reflexivity.
+  - rewrite run_cons_msg. cbn [spec_go].
+    assert (Hsort : step_sorted m last).
+    { destruct m as [|t]; cbn; [exact I|]. destruct last; [|exact I]. cbn in Hnd. lia. }
+    destruct (step_inv r m hist last Hs HI Hsort) as [Hv HI'].
+    assert (Hnd' : nondecr (next_last m last) tl = true).
+    { destruct m as [|t]; cbn in *; [exact Hnd|]. destruct last; cbn in Hnd; lia. }
+    revert HI'. rewrite (is_in_range_closed r m Hs); cbn [fst snd]; intros HI'.
+    assert (Ho : match t0 r, m with None, Timed t => Some t | _, _ => t0 r end = next_t0 r m).
+    { unfold next_t0; destruct (t0 r), m; reflexivity. }
+    rewrite Ho.
+    rewrite <- Hv. f_equal.
+    rewrite (IH _ _ _ (eq_refl : specified (mktr _ _ _ _ true _ _) = true) HI' Hnd'). reflexivity.
+  - rewrite run_cons_restart. cbn [spec_go nondecr] in *.
+    rewrite (IH (restart r) [] None); [reflexivity|exact Hs| |exact Hnd].
+    apply inv_clear; reflexivity.
+Qed.
+
+(* unspecified ranges (no bound at all): every message is accepted, by the model and by the SPEC *)
+Definition all_true (ops : list op) : list bool :=
+  flat_map (fun o => match o with Msg _ => [true] | Restart => [] end) ops.
+
+Lemma run_unspecified : forall ops r, specified r = false -> fst (run r ops) = all_true ops.
+Proof.
+  induction ops as [|[m|] tl IH]; intros r Hs; [reflexivity| |].
+  - rewrite run_cons_msg. unfold is_in_range, is_in_range_gen. rewrite Hs. cbn [negb fst snd all_true flat_map app].
+    f_equal. apply IH. exact Hs.
+  - rewrite run_cons_restart. apply IH. exact Hs.
+Qed.
+
+Lemma spec_unbounded : forall ops v o h, lo v = None -> hi v = None -> spec_go v o h ops = all_true ops.
+Proof.
+  induction ops as [|[m|] tl IH]; intros v o h Hl Hh; [reflexivity| |].
+  - cbn [spec_go all_true flat_map app]. f_equal; [|apply IH; assumption].
+    unfold spec_decide, in_iv, ge_lo, lt_hi. rewrite Hl, Hh. destruct m; [|reflexivity].
+    assert (Hb : forall o' hh, seen_beyond v o' hh = false).
+    { intros o' hh; induction hh as [|[m' b'] hh IHh]; [reflexivity|].
+      rewrite seen_beyond_cons, IHh. unfold beyond, lt_hi; rewrite Hh. destruct m'; reflexivity. }
+    rewrite Hb. reflexivity.
+  - cbn [spec_go all_true flat_map app]. apply IH; assumption.
+Qed.
+
+Lemma init_describe : forall a,
+  start (init a) = lo (describe a) /\ stop (init a) = hi (describe a) /\
+  absolute (init a) = iabs (describe a) /\ t0 (init a) = a_t0 a.
+Proof.
+  intros [s e ab o]. unfold init, init_gen, describe, describe_abs, bound; cbn.
+  repeat split.
+  - destruct s as [|[| z |]|[[| z |]|]]; cbn; try reflexivity;
+      destruct ab as [[|]|]; destruct e as [| |]; cbn; try reflexivity;
+      rewrite ?andb_true_r, ?andb_false_r; try reflexivity; destruct (z =? tr_abs_open_start); reflexivity.
+  - destruct e as [|[| z |]|[[| z |]|]]; reflexivity.
+  - destruct ab as [[|]|]; [reflexivity|reflexivity|]. destruct (is_ts s || is_ts e); reflexivity.
+Qed.
+
+Lemma init_fresh : forall a, fresh (init a).
+Proof. intros a; unfold fresh, init, init_gen; cbn; auto. Qed.
+
+Theorem in_range_matches_spec_proof : forall a ops,
+  nondecr None ops = true -> accepted (init a) ops = spec_run (describe a) ops.
+Proof.
+  intros a ops Hnd. unfold accepted, spec_run.
+  destruct (init_describe a) as [H1 [H2 [H3 H4]]].
+  destruct (init_fresh a) as [F1 [F2 F3]].
+  destruct (specified (init a)) eqn:Hs.
+  - rewrite (run_spec_core ops (init a) [] None Hs (inv_clear _ F1 F2) Hnd).
+    rewrite H4. apply spec_go_cfg; cbn; auto.
+  - rewrite (run_unspecified ops _ Hs). symmetry. apply spec_unbounded.
+    + rewrite <- H1. destruct (start (init a)); [|reflexivity]. rewrite F3 in Hs; discriminate.
+    + rewrite <- H2. destruct (start (init a)), (stop (init a)); try reflexivity; rewrite F3 in Hs; discriminate.
+Qed.
+
+(* every fresh range (constructed, parsed, made absolute, intersected, restarted) — not only [init a] *)
+Lemma accepted_spec : forall r ops, fresh r -> nondecr None ops = true ->
+  accepted r ops = spec_go (cfg r) (t0 r) [] ops.
+Proof.
+  intros r ops [F1 [F2 F3]] Hnd. unfold accepted.
+  destruct (specified r) eqn:Hs.
+  - apply (run_spec_core ops r [] None Hs (inv_clear _ F1 F2) Hnd).
+  - rewrite (run_unspecified ops _ Hs). symmetry.
+    destruct (start r) eqn:H1, (stop r) eqn:H2; try discriminate.
+    apply spec_unbounded; cbn; assumption.
+Qed.
+
+(* the documented normalisations do not change which P1 times (>= 0 when absolute) are members *)
+Lemma describe_membership : forall a c,
+  (describe_abs a = true -> 0 <= c) -> in_iv (describe a) c = in_iv (describe_raw a) c.
+Proof.
+  intros [s e ab o] c Hc. unfold in_iv, describe, describe_raw; cbn [lo hi a_start a_end].
+  f_equal.
+  - destruct (bound s) as [[| z |]|]; try reflexivity.
+    destruct ((z =? tr_abs_open_start) && describe_abs (mkargs s e ab o)) eqn:Hz; [|reflexivity].
+    apply andb_prop in Hz. destruct Hz as [Hz Ha]. unfold tr_abs_open_start in Hz.
+    specialize (Hc Ha). cbn. lia.
+  - destruct (bound e) as [[| z |]|]; reflexivity.
+Qed.
+Lemma describe_open_start : forall a,
+  is_none (lo (describe a)) = true <->
+  bound (a_start a) = None \/ (describe_abs a = true /\ bound (a_start a) = Some (Fin 0)).
+Proof.
+  intros [s e ab o]. unfold describe; cbn [lo a_start].
+  destruct (bound s) as [[| z |]|]; cbn; try (split; [discriminate|intros [H|[_ H]]; discriminate]).
+  - destruct ((z =? tr_abs_open_start) && describe_abs (mkargs s e ab o)) eqn:Hz; cbn.
+    + apply andb_prop in Hz. destruct Hz as [Hz Ha]. unfold tr_abs_open_start in Hz.
+      split; [intros _; right; split; [exact Ha|f_equal; f_equal; lia]|reflexivity].
+    + split; [discriminate|]. intros [H|[Ha H]]; [discriminate|]. injection H as ->.
+      rewrite Ha in Hz. discriminate.
+  - split; [left; reflexivity|reflexivity].
+Qed.
+
+(* ------------------------------------------------------------------------------------------------ *)
+(* restart / t0                                                                                     *)
+(* ------------------------------------------------------------------------------------------------ *)
+Lemma is_in_range_frame : forall r m,
+  let r' := fst (is_in_range r m) in
+  start r' = start r /\ stop r' = stop r /\ absolute r' = absolute r /\ specified r' = specified r /\
+  t0 r' = if specified r then next_t0 r m else t0 r.
+Proof.
+  intros r m. destruct (specified r) eqn:Hs.
+  - rewrite (is_in_range_closed r m Hs); cbn. auto.
+  - unfold is_in_range, is_in_range_gen; rewrite Hs; cbn. auto.
+Qed.
+
+Lemma run_cons_msg_snd : forall r m tl, snd (run r (Msg m :: tl)) = snd (run (fst (is_in_range r m)) tl).
+Proof.
+  intros; unfold run, is_in_range; cbn [run_gen].
+  destruct (is_in_range_gen current r m) as [r' b]. cbn [fst snd]. destruct (run_gen current r' tl); reflexivity.
+Qed.
+
+Lemma run_frame : forall ops r,
+  let r' := snd (run r ops) in
+  start r' = start r /\ stop r' = stop r /\ absolute r' = absolute r /\ specified r' = specified r /\
+  t0 r' = if specified r then match t0 r with Some z => Some z | None => first_timed ops end else t0 r.
+Proof.
+  induction ops as [|[m|] tl IH]; intros r; cbn zeta.
+  - cbn. repeat split. destruct (specified r), (t0 r); reflexivity.
+  - rewrite run_cons_msg_snd.
+    destruct (IH (fst (is_in_range r m))) as [H1 [H2 [H3 [H4 H5]]]].
+    destruct (is_in_range_frame r m) as [G1 [G2 [G3 [G4 G5]]]].
+    rewrite H1, H2, H3, H4, H5, G1, G2, G3, G4, G5. repeat split.
+    unfold next_t0. destruct (specified r); [|reflexivity]. destruct (t0 r), m; reflexivity.
+  - rewrite run_cons_restart. destruct (IH (restart r)) as [H1 [H2 [H3 [H4 H5]]]].
+    rewrite H1, H2, H3, H4, H5. cbn. auto.
+Qed.
+
+Lemma t0_first_timed_proof : forall a ops,
+  t0 (snd (run (init a) ops)) =
+  if specified (init a) then match a_t0 a with Some z => Some z | None => first_timed ops end else a_t0 a.
+Proof. intros a ops. destruct (run_frame ops (init a)) as [_ [_ [_ [_ H]]]]. exact H. Qed.
+
+Lemma restart_record : forall r ops,
+  restart (snd (run r ops)) = set_t0 (restart r) (t0 (snd (run r ops))).
+Proof.
+  intros r ops. destruct (run_frame ops r) as [H1 [H2 [H3 [H4 _]]]].
+  destruct (snd (run r ops)) as [a b c d e f g]; destruct r as [a' b' c' d' e' f' g']; cbn in *; subst.
+  reflexivity.
+Qed.
+
+Lemma restart_resets_proof : forall a ops1 ops2,
+  let r1 := snd (run (init a) ops1) in
+  started (restart r1) = false /\ ended (restart r1) = false /\
+  restart r1 = init (mkargs (a_start a) (a_end a) (a_abs a) (t0 r1)) /\
+  accepted r1 (Restart :: ops2) = accepted (init (mkargs (a_start a) (a_end a) (a_abs a) (t0 r1))) ops2.
+Proof.
+  intros a ops1 ops2 r1.
+  assert (H : restart r1 = init (mkargs (a_start a) (a_end a) (a_abs a) (t0 r1))).
+  { unfold r1. rewrite restart_record. destruct a; reflexivity. }
+  repeat split; [exact H|]. unfold accepted. rewrite run_cons_restart, H. reflexivity.
+Qed.
+
+(* ------------------------------------------------------------------------------------------------ *)
+(* SPEC-level algebra: summary form, origins, shift, intersection                                    *)
+(* ------------------------------------------------------------------------------------------------ *)
+Definition untimed_only (h : list (msg * bool)) : Prop := Forall (fun mb : msg * bool => fst mb = Untimed) h.
+
+(* the SPEC depends on the history only through "a P1 time at/beyond the end was seen" and "some message
+   was accepted" *)
+Fixpoint spec_sum (v : iv) (o : option Z) (sb sa : bool) (ops : list op) : list bool :=
+  match ops with
+  | [] => []
+  | Restart :: tl => spec_sum v o false false tl
+  | Msg m :: tl =>
+      let o' := match o, m with None, Timed t => Some t | _, _ => o end in
+      let b := match m with
+               | Timed t => in_iv v (rel v o' t)
+               | Untimed => negb sb && (is_none (lo v) || sa) end in
+      let sb' := match m with Timed t => beyond v (rel v o' t) | Untimed => false end || sb in
+      b :: spec_sum v o' sb' (b || sa) tl
+  end.
+
+Lemma spec_go_sum : forall ops v o h, (o = None -> untimed_only h) ->
+  spec_go v o h ops = spec_sum v o (seen_beyond v o h) (some_accepted h) ops.
+Proof.
+  induction ops as [|[m|] tl IH]; intros v o h Hh; [reflexivity| |].
+  - cbn [spec_go spec_sum].
+    set (o' := match o, m with None, Timed t => Some t | _, _ => o end).
+    assert (Hsb : seen_beyond v o' h = seen_beyond v o h).
+    { unfold o'. destruct o as [z|]; [reflexivity|]. rewrite !seen_beyond_untimed by (apply Hh; reflexivity). reflexivity. }
+    assert (Hd : spec_decide v o' h m =
+                 match m with Timed t => in_iv v (rel v o' t) | Untimed => negb (seen_beyond v o h) && (is_none (lo v) || some_accepted h) end).
+    { destruct m; cbn [spec_decide]; [rewrite Hsb|]; reflexivity. }
+    rewrite Hd. f_equal. rewrite IH.
+    + rewrite seen_beyond_cons, some_accepted_cons, Hsb. reflexivity.
+    + intros Ho. constructor; [|apply Hh]; unfold o' in Ho; destruct o, m; try discriminate; reflexivity.
+  - cbn [spec_go spec_sum]. rewrite IH; [reflexivity|]. intros _; constructor.
+Qed.
+
+Lemma rel_iabs : forall v v' o t, iabs v = iabs v' -> rel v o t = rel v' o t.
+Proof. intros v v' o t H; unfold rel; rewrite H; reflexivity. Qed.
+
+Lemma seen_beyond_ext : forall v v' o o' h,
+  (forall t, beyond v (rel v o t) = beyond v' (rel v' o' t)) -> seen_beyond v o h = seen_beyond v' o' h.
+Proof.
+  intros v v' o o' h H; induction h as [|[m b] h IH]; [reflexivity|].
+  rewrite !seen_beyond_cons, IH. destruct m; [reflexivity|]. rewrite H. reflexivity.
+Qed.
+
+(* absolute: the origin plays no role *)
+Lemma spec_go_abs_origin : forall ops v o o' h, iabs v = true -> spec_go v o h ops = spec_go v o' h ops.
+Proof.
+  induction ops as [|[m|] tl IH]; intros v o o' h Ha; [reflexivity| |cbn [spec_go]; apply IH; exact Ha].
+  cbn [spec_go].
+  assert (Hr : forall x y t, rel v x t = rel v y t) by (intros; unfold rel; rewrite Ha; reflexivity).
+  assert (Hd : forall x y, spec_decide v x h m = spec_decide v y h m).
+  { intros x y. destruct m; cbn [spec_decide]; [|rewrite (Hr x y); reflexivity].
+    rewrite (seen_beyond_ext v v x y h); [reflexivity|]. intros t; rewrite (Hr x y); reflexivity. }
+  rewrite (Hd _ (match o', m with None, Timed t => Some t | _, _ => o' end)). f_equal. apply IH. exact Ha.
+Qed.
+
+(* relative: two origins that resolve to the same value at the first P1 time are interchangeable *)
+Definition eff (o : option Z) (f : Z) : Z := match o with Some z => z | None => f end.
+
+Lemma spec_go_origin : forall ops v o o' h, untimed_only h ->
+  (forall f, first_timed ops = Some f -> eff o f = eff o' f) ->
+  spec_go v o h ops = spec_go v o' h ops.
+Proof.
+  induction ops as [|[m|] tl IH]; intros v o o' h Hh Hf; [reflexivity| |].
+  - cbn [spec_go]. destruct m as [|t].
+    + (* untimed: the verdict does not look at the origin *)
+      assert (H1 : match o with Some _ => o | None => o end = o) by (destruct o; reflexivity).
+      assert (H2 : match o' with Some _ => o' | None => o' end = o') by (destruct o'; reflexivity).
+      rewrite H1, H2. cbn [spec_decide]. rewrite !seen_beyond_untimed by exact Hh.
+      f_equal. apply IH; [constructor; [reflexivity|exact Hh]|]. intros f Hft. apply Hf. exact Hft.
+    + specialize (Hf t eq_refl).
+      assert (E : match o with Some _ => o | None => Some t end = match o' with Some _ => o' | None => Some t end).
+      { destruct o, o'; cbn in Hf; subst; reflexivity. }
+      rewrite E. reflexivity.
+  - cbn [spec_go]. apply IH; [constructor|]. intros f Hft. apply Hf. exact Hft.
+Qed.
+
+(* make_absolute at SPEC level: adding the origin to both bounds and comparing absolute times *)
+Definition shift_iv (z : Z) (v : iv) : iv :=
+  mkiv (option_map (fun e => ext_add e z) (lo v)) (option_map (fun e => ext_add e z) (hi v)) true (org v).
+
+Lemma ge_lo_shift : forall l z c, ge_lo (option_map (fun e => ext_add e z) l) c = ge_lo l (c - z).
+Proof. intros [[|x|]|] z c; cbn; try reflexivity. f_equal. lia. Qed.
+Lemma lt_hi_shift : forall l z c, lt_hi (option_map (fun e => ext_add e z) l) c = lt_hi l (c - z).
+Proof. intros [[|x|]|] z c; cbn; try reflexivity. lia. Qed.
+
+Lemma spec_go_shift : forall ops v z h, iabs v = false ->
+  spec_go (shift_iv z v) (Some z) h ops = spec_go v (Some z) h ops.
+Proof.
+  induction ops as [|[m|] tl IH]; intros v z h Ha; [reflexivity| |cbn [spec_go]; apply IH; exact Ha].
+  cbn [spec_go].
+  assert (Hin : forall t, in_iv (shift_iv z v) (rel (shift_iv z v) (Some z) t) = in_iv v (rel v (Some z) t)).
+  { intros t. unfold in_iv, rel, shift_iv; cbn [lo hi iabs]. rewrite Ha, ge_lo_shift, lt_hi_shift. reflexivity. }
+  assert (Hby : forall t, beyond (shift_iv z v) (rel (shift_iv z v) (Some z) t) = beyond v (rel v (Some z) t)).
+  { intros t. unfold beyond, rel, shift_iv; cbn [lo hi iabs]. rewrite Ha, lt_hi_shift. reflexivity. }
+  assert (Hd : spec_decide (shift_iv z v) (Some z) h m = spec_decide v (Some z) h m).
+  { destruct m; cbn [spec_decide]; [|apply Hin].
+    rewrite (seen_beyond_ext _ v (Some z) (Some z) h Hby). f_equal. f_equal.
+    unfold shift_iv; cbn [lo]. destruct (lo v); reflexivity. }
+  assert (Ho : match m with Timed _ => Some z | Untimed => Some z end = Some z) by (destruct m; reflexivity).
+  change (match m with Untimed => Some z | Timed _ => Some z end) with (match m with Timed _ => Some z | Untimed => Some z end).
+  rewrite Hd. f_equal. destruct m; apply IH; exact Ha.
+Qed.
+
+(* ---- intersection of two interval descriptions with the same kind and origin --------------------- *)
+Definition max_lo (a b : option ext) : option ext :=
+  match a with None => b | Some x => match b with Some y => Some (ext_max x y) | None => Some x end end.
+Definition min_hi (a b : option ext) : option ext :=
+  match a with None => b | Some x => match b with Some y => Some (ext_min x y) | None => Some x end end.
+
+Lemma ge_lo_max : forall a b c, ge_lo (max_lo a b) c = ge_lo a c && ge_lo b c.
+Proof.
+  intros [x|] [y|] c; cbn; try reflexivity; [|rewrite andb_true_r; reflexivity].
+  unfold ext_max. destruct x as [|x|], y as [|y|]; cbn; try reflexivity;
+    try (destruct (x <? y) eqn:E; cbn; lia); try lia; try (destruct (c <? x); reflexivity);
+    try (destruct (c <? y); reflexivity).
+Qed.
+Lemma lt_hi_min : forall a b c, lt_hi (min_hi a b) c = lt_hi a c && lt_hi b c.
+Proof.
+  intros [x|] [y|] c; cbn; try reflexivity; [|rewrite andb_true_r; reflexivity].
+  unfold ext_min. destruct x as [|x|], y as [|y|]; cbn; try reflexivity;
+    try (destruct (y <? x) eqn:E; cbn; lia); try lia; try (destruct (c <? x); reflexivity);
+    try (destruct (c <? y); reflexivity).
+Qed.
+Lemma is_none_max : forall a b, is_none (max_lo a b) = is_none a && is_none b.
+Proof. intros [x|] [y|]; reflexivity. Qed.
+
+Record J (vA vB vI : iv) (o : option Z) (last : option Z) (sbA saA sbB saB sbI saI : bool) : Prop := {
+  J_sb : sbI = sbA || sbB;
+  J_sa : saI = true -> saA = true /\ saB = true;
+  J_LA : saA = true -> is_none (lo vA) = false -> exists l, last = Some l /\ ge_lo (lo vA) (rel vI o l) = true;
+  J_LB : saB = true -> is_none (lo vB) = false -> exists l, last = Some l /\ ge_lo (lo vB) (rel vI o l) = true;
+  J_MA : forall l, last = Some l -> lt_hi (hi vA) (rel vI o l) = false -> sbA = true;
+  J_MB : forall l, last = Some l -> lt_hi (hi vB) (rel vI o l) = false -> sbB = true;
+  J_K : forall l, last = Some l -> in_iv vI (rel vI o l) = true -> saI = true;
+  J_O : forall l, last = Some l -> o <> None
+}.
+
+Lemma spec_sum_intersect : forall ops vA vB vI o last sbA saA sbB saB sbI saI,
+  iabs vA = iabs vI -> iabs vB = iabs vI ->
+  lo vI = max_lo (lo vA) (lo vB) -> hi vI = min_hi (hi vA) (hi vB) ->
+  J vA vB vI o last sbA saA sbB saB sbI saI ->
+  nondecr last ops = true ->
+  spec_sum vI o sbI saI ops = and_lists (spec_sum vA o sbA saA ops) (spec_sum vB o sbB saB ops).
+Proof.
+  induction ops as [|[m|] tl IH]; intros vA vB vI o last sbA saA sbB saB sbI saI HaA HaB Hlo Hhi HJ Hnd;
+    [reflexivity| |].
+  - cbn [spec_sum]. unfold and_lists. cbn [combine map fst snd]. fold (and_lists).
+    destruct m as [|t].
+    + (* untimed *)
+      assert (Ho : match o with Some _ => o | None => o end = o) by (destruct o; reflexivity).
+      rewrite Ho. rewrite !orb_false_l.
+      destruct HJ as [Jsb Jsa JLA JLB JMA JMB JK JO].
+      assert (Hb : negb sbI && (is_none (lo vI) || saI) =
+                   (negb sbA && (is_none (lo vA) || saA)) && (negb sbB && (is_none (lo vB) || saB))).
+      { rewrite Hlo, is_none_max, Jsb.
+        destruct sbA; [reflexivity|]. destruct sbB; [cbn; rewrite andb_false_r; reflexivity|]. cbn [negb orb andb].
+        destruct saI eqn:HsI.
+        - destruct (Jsa eq_refl) as [-> ->]. rewrite !orb_true_r. reflexivity.
+        - rewrite orb_false_r.
+          destruct (is_none (lo vA)) eqn:nA, (is_none (lo vB)) eqn:nB; cbn [andb orb].
+          + reflexivity.
+          + destruct saB eqn:HsB; [|reflexivity]. exfalso.
+            destruct (JLB eq_refl eq_refl) as [l [Hl Hg]].
+            assert (Hin : in_iv vI (rel vI o l) = true).
+            { unfold in_iv. rewrite Hlo, Hhi, ge_lo_max, lt_hi_min, Hg.
+              destruct (lo vA); [discriminate|]. cbn [ge_lo andb].
+              destruct (lt_hi (hi vA) (rel vI o l)) eqn:E1; [|discriminate (JMA l Hl E1)].
+              destruct (lt_hi (hi vB) (rel vI o l)) eqn:E2; [|discriminate (JMB l Hl E2)]. reflexivity. }
+            discriminate (JK l Hl Hin).
+          + destruct saA eqn:HsA; [|reflexivity]. exfalso.
+            destruct (JLA eq_refl eq_refl) as [l [Hl Hg]].
+            assert (Hin : in_iv vI (rel vI o l) = true).
+            { unfold in_iv. rewrite Hlo, Hhi, ge_lo_max, lt_hi_min, Hg.
+              destruct (lo vB); [discriminate|]. cbn [ge_lo andb].
+              destruct (lt_hi (hi vA) (rel vI o l)) eqn:E1; [|discriminate (JMA l Hl E1)].
+              destruct (lt_hi (hi vB) (rel vI o l)) eqn:E2; [|discriminate (JMB l Hl E2)]. reflexivity. }
+            discriminate (JK l Hl Hin).
+          + destruct saA eqn:HsA; [|reflexivity]. destruct saB eqn:HsB; [|reflexivity]. exfalso.
+            destruct (JLA eq_refl eq_refl) as [l [Hl Hg]].
+            destruct (JLB eq_refl eq_refl) as [l' [Hl' Hg']].
+            rewrite Hl in Hl'. injection Hl' as <-.
+            assert (Hin : in_iv vI (rel vI o l) = true).
+            { unfold in_iv. rewrite Hlo, Hhi, ge_lo_max, lt_hi_min, Hg, Hg'. cbn [andb].
+              destruct (lt_hi (hi vA) (rel vI o l)) eqn:E1; [|discriminate (JMA l Hl E1)].
+              destruct (lt_hi (hi vB) (rel vI o l)) eqn:E2; [|discriminate (JMB l Hl E2)]. reflexivity. }
+            discriminate (JK l Hl Hin). }
+      rewrite Hb. f_equal.
+      apply (IH vA vB vI o last); try assumption.
+      rewrite <- Hb.
+      constructor.
+      * exact Jsb.
+      * rewrite Hb. intros H. apply orb_prop in H. destruct H as [H|H].
+        -- apply andb_prop in H. destruct H as [H1 H2]. rewrite H1, H2. auto.
+        -- destruct (Jsa H) as [-> ->]. rewrite !orb_true_r. auto.
+      * intros H Hn. apply JLA; [|exact Hn]. rewrite Hn in H. cbn in H.
+        destruct saA; [reflexivity|]. rewrite andb_false_r in H. exact H.
+      * intros H Hn. apply JLB; [|exact Hn]. rewrite Hn in H. cbn in H.
+        destruct saB; [reflexivity|]. rewrite andb_false_r in H. exact H.
+      * exact JMA.
+      * exact JMB.
+      * intros l Hl Hin. rewrite (JK l Hl Hin). apply orb_true_r.
+      * exact JO.
+    + (* timed *)
+      cbn [nondecr] in Hnd. apply andb_prop in Hnd. destruct Hnd as [Hsort Hnd].
+      set (o' := match o with Some _ => o | None => Some t end).
+      assert (HrA : rel vA o' t = rel vI o' t) by (apply rel_iabs; exact HaA).
+      assert (HrB : rel vB o' t = rel vI o' t) by (apply rel_iabs; exact HaB).
+      rewrite HrA, HrB. set (c := rel vI o' t).
+      destruct HJ as [Jsb Jsa JLA JLB JMA JMB JK JO].
+      assert (Hin : in_iv vI c = in_iv vA c && in_iv vB c).
+      { unfold in_iv. rewrite Hlo, Hhi, ge_lo_max, lt_hi_min.
+        destruct (ge_lo (lo vA) c), (ge_lo (lo vB) c), (lt_hi (hi vA) c), (lt_hi (hi vB) c); reflexivity. }
+      rewrite Hin. f_equal.
+      assert (Hrel : forall l, last = Some l -> rel vI o l <= c /\ o' = o).
+      { intros l Hl. unfold c, o'. destruct o as [z|]; [|exfalso; exact (JO l Hl eq_refl)].
+        split; [|reflexivity]. apply rel_mono. rewrite Hl in Hsort. apply Z.leb_le. exact Hsort. }
+      apply (IH vA vB vI o' (Some t)); try assumption.
+      * constructor.
+        -- unfold beyond. rewrite Hhi, lt_hi_min, Jsb.
+           destruct (lt_hi (hi vA) c), (lt_hi (hi vB) c), sbA, sbB; reflexivity.
+        -- rewrite <- Hin. intros H. apply orb_prop in H. destruct H as [H|H].
+           ++ rewrite Hin in H. apply andb_prop in H. destruct H as [-> ->]. auto.
+           ++ destruct (Jsa H) as [-> ->]. rewrite !orb_true_r. auto.
+        -- intros H Hn. exists t. split; [reflexivity|]. fold c.
+           destruct (in_iv vA c) eqn:E; [unfold in_iv in E; apply andb_prop in E; tauto|].
+           cbn in H. destruct (JLA H Hn) as [l [Hl Hg]]. destruct (Hrel l Hl) as [Hle Ho].
+           eapply ge_lo_mono; [exact Hle|exact Hg].
+        -- intros H Hn. exists t. split; [reflexivity|]. fold c.
+           destruct (in_iv vB c) eqn:E; [unfold in_iv in E; apply andb_prop in E; tauto|].
+           cbn in H. destruct (JLB H Hn) as [l [Hl Hg]]. destruct (Hrel l Hl) as [Hle Ho].
+           eapply ge_lo_mono; [exact Hle|exact Hg].
+        -- intros l Hl E. injection Hl as <-. fold c in E. unfold beyond. rewrite E. reflexivity.
+        -- intros l Hl E. injection Hl as <-. fold c in E. unfold beyond. rewrite E. reflexivity.
+        -- intros l Hl E. injection Hl as <-. fold c in E. rewrite <- Hin, E. reflexivity.
+        -- intros l _. unfold o'. destruct o; discriminate.
+  - cbn [spec_sum]. apply (IH vA vB vI o None); try assumption.
+    constructor; try discriminate; try reflexivity; auto.
+Qed.
+
+Lemma spec_intersect_go : forall vA vB vI o ops,
+  iabs vA = iabs vI -> iabs vB = iabs vI ->
+  lo vI = max_lo (lo vA) (lo vB) -> hi vI = min_hi (hi vA) (hi vB) ->
+  nondecr None ops = true ->
+  spec_go vI o [] ops = and_lists (spec_go vA o [] ops) (spec_go vB o [] ops).
+Proof.
+  intros vA vB vI o ops HaA HaB Hlo Hhi Hnd.
+  rewrite !spec_go_sum by (intros _; constructor). cbn [seen_beyond some_accepted existsb].
+  apply (spec_sum_intersect ops vA vB vI o None); try assumption.
+  constructor; try discriminate; try reflexivity; auto.
+Qed.
+
+(* ------------------------------------------------------------------------------------------------ *)
+(* make_absolute / intersect on the model                                                            *)
+(* ------------------------------------------------------------------------------------------------ *)
+Lemma make_absolute_rel : forall r arg r', absolute r = false -> make_absolute r arg = Ok r' ->
+  exists z, (t0 r = Some z \/ (t0 r = None /\ arg = Some z)) /\
+            cfg r' = shift_iv z (cfg r) /\ t0 r' = Some z /\
+            started r' = started r /\ ended r' = ended r /\ specified r' = specified r.
+Proof.
+  intros [st sp ab o spc sd ed] arg r' Ha H. cbn in Ha; subst ab.
+  unfold make_absolute, make_absolute_gen in H; cbn in H.
+  destruct arg as [a|], o as [z|]; cbn in H; try discriminate;
+    [exists z|exists a|exists z]; injection H as <-;
+    (split; [auto|]); destruct st, sp; cbn; auto.
+Qed.
+
+Lemma make_absolute_abs : forall r arg, absolute r = true ->
+  exists r', make_absolute r arg = Ok r' /\ cfg r' = cfg r /\ started r' = started r /\ ended r' = ended r /\
+             specified r' = specified r.
+Proof.
+  intros [st sp ab o spc sd ed] arg Ha. cbn in Ha; subst ab.
+  unfold make_absolute, make_absolute_gen; cbn.
+  destruct arg, o; cbn; eexists; (split; [reflexivity|cbn; auto]).
+Qed.
+
+Definition combine_tr (self other : tr) : tr :=
+  let st := max_lo (start self) (start other) in
+  let en := min_hi (stop self) (stop other) in
+  mktr st en (absolute self) (match t0 self with None => t0 other | Some z => Some z end)
+       (negb (is_none st) || negb (is_none en)) (started self) (ended self).
+
+Lemma intersect_unfold : forall A B,
+  intersect A B =
+  if absolute A && negb (absolute B) then
+    match make_absolute B (t0 A) with Ok B' => Ok (combine_tr A B') | ValueError => ValueError end
+  else if negb (absolute A) && absolute B then
+    match make_absolute A (t0 B) with Ok A' => Ok (combine_tr A' B) | ValueError => ValueError end
+  else Ok (combine_tr A B).
+Proof.
+  intros A B. unfold intersect, intersect_gen, make_absolute.
+  assert (E : forall s o : tr,
+    Ok (match t0 (set_specified (set_stop (set_start s (max_lo (start s) (start o))) (min_hi (stop s) (stop o)))
+                   (negb (is_none (max_lo (start s) (start o))) || negb (is_none (min_hi (stop s) (stop o))))) with
+        | None => set_t0 (set_specified (set_stop (set_start s (max_lo (start s) (start o))) (min_hi (stop s) (stop o)))
+                   (negb (is_none (max_lo (start s) (start o))) || negb (is_none (min_hi (stop s) (stop o))))) (t0 o)
+        | Some _ => set_specified (set_stop (set_start s (max_lo (start s) (start o))) (min_hi (stop s) (stop o)))
+                   (negb (is_none (max_lo (start s) (start o))) || negb (is_none (min_hi (stop s) (stop o))))
+        end) = Ok (combine_tr s o)).
+  { intros [a b c d e f g] o. unfold combine_tr; cbn. destruct d; reflexivity. }
+  destruct (absolute A && negb (absolute B)).
+  - destruct (make_absolute_gen current B (t0 A)); [apply E|reflexivity].
+  - destruct (negb (absolute A) && absolute B).
+    + destruct (make_absolute_gen current A (t0 B)); [apply E|reflexivity].
+    + apply E.
+Qed.
+
+Lemma combine_fresh : forall s o, started s = false -> ended s = false -> fresh (combine_tr s o).
+Proof. intros s o H1 H2; unfold fresh, combine_tr; cbn; auto. Qed.
+
+Lemma origins_agree_unfold : forall A B ops f, origins_agree A B ops = true -> first_timed ops = Some f ->
+  match absolute A, absolute B with
+  | true, true => True
+  | true, false => t0 B <> None \/ eff (t0 A) f = f
+  | false, true => t0 A <> None \/ eff (t0 B) f = f
+  | false, false => eff (t0 A) f = eff (t0 B) f
+  end.
+Proof.
+  intros A B ops f H Hf. unfold origins_agree in H. rewrite Hf in H. unfold eff.
+  destruct (absolute A), (absolute B); [exact I| | |lia].
+  - destruct (t0 B); [left; discriminate|right]. cbn in H. lia.
+  - destruct (t0 A); [left; discriminate|right]. cbn in H. lia.
+Qed.
+
+Theorem intersect_spec_proof : forall A B I ops,
+  fresh A -> fresh B -> intersect A B = Ok I ->
+  nondecr None ops = true -> origins_agree A B ops = true ->
+  fresh I /\ accepted I ops = and_lists (accepted A ops) (accepted B ops).
+Proof.
+  intros A B I ops FA FB HI Hnd Hor.
+  pose proof FA as [FA1 [FA2 FA3]]. pose proof FB as [FB1 [FB2 FB3]].
+  rewrite intersect_unfold in HI.
+  rewrite (accepted_spec A ops FA Hnd), (accepted_spec B ops FB Hnd).
+  destruct (absolute A) eqn:aA, (absolute B) eqn:aB; cbn [andb negb] in HI.
+  - (* absolute, absolute *)
+    injection HI as <-.
+    assert (FI : fresh (combine_tr A B)) by (apply combine_fresh; assumption).
+    split; [exact FI|]. rewrite (accepted_spec _ ops FI Hnd).
+    rewrite (spec_go_abs_origin ops (cfg (combine_tr A B)) _ None) by (cbn; exact aA).
+    rewrite (spec_go_abs_origin ops (cfg A) _ None) by (cbn; exact aA).
+    rewrite (spec_go_abs_origin ops (cfg B) _ None) by (cbn; exact aB).
+    apply spec_intersect_go; cbn; congruence.
+  - (* absolute self, relative other: other is converted with self's t0 if it has none *)
+    destruct (make_absolute B (t0 A)) as [B'|] eqn:HB; [|discriminate]. injection HI as <-.
+    destruct (make_absolute_rel B (t0 A) B' aB HB) as [z [Hz [HcB [HtB [HsB [HeB HspB]]]]]].
+    assert (FI : fresh (combine_tr A B')) by (apply combine_fresh; assumption).
+    split; [exact FI|]. rewrite (accepted_spec _ ops FI Hnd).
+    rewrite (spec_go_abs_origin ops (cfg (combine_tr A B')) _ None) by (cbn; exact aA).
+    rewrite (spec_go_abs_origin ops (cfg A) _ None) by (cbn; exact aA).
+    assert (HBz : spec_go (cfg B) (t0 B) [] ops = spec_go (cfg B') None [] ops).
+    { rewrite (spec_go_origin ops (cfg B) (t0 B) (Some z)).
+      - rewrite <- (spec_go_shift ops (cfg B) z []) by (cbn; exact aB). rewrite <- HcB.
+        apply spec_go_abs_origin. rewrite HcB. reflexivity.
+      - constructor.
+      - intros f Hf. pose proof (origins_agree_unfold A B ops f Hor Hf) as Ho. rewrite aA, aB in Ho.
+        destruct Hz as [Hz|[Hz1 Hz2]]; [rewrite Hz; reflexivity|].
+        rewrite Hz1. cbn [eff]. destruct Ho as [Ho|Ho]; [exfalso; apply Ho; exact Hz1|].
+        rewrite Hz2 in Ho. cbn [eff] in Ho. symmetry. exact Ho. }
+    rewrite HBz.
+    assert (aB' : absolute B' = true).
+    { change (iabs (cfg B') = true). rewrite HcB. reflexivity. }
+    apply spec_intersect_go; try assumption; cbn; try reflexivity; congruence.
+  - (* relative self, absolute other: self is converted with other's t0 if it has none *)
+    destruct (make_absolute A (t0 B)) as [A'|] eqn:HA; [|discriminate]. injection HI as <-.
+    destruct (make_absolute_rel A (t0 B) A' aA HA) as [z [Hz [HcA [HtA [HsA [HeA HspA]]]]]].
+    assert (FI : fresh (combine_tr A' B)) by (apply combine_fresh; congruence).
+    split; [exact FI|]. rewrite (accepted_spec _ ops FI Hnd).
+    assert (aA' : absolute A' = true).
+    { change (iabs (cfg A') = true). rewrite HcA. reflexivity. }
+    rewrite (spec_go_abs_origin ops (cfg (combine_tr A' B)) _ None) by (cbn; exact aA').
+    rewrite (spec_go_abs_origin ops (cfg B) _ None) by (cbn; exact aB).
+    assert (HAz : spec_go (cfg A) (t0 A) [] ops = spec_go (cfg A') None [] ops).
+    { rewrite (spec_go_origin ops (cfg A) (t0 A) (Some z)).
+      - rewrite <- (spec_go_shift ops (cfg A) z []) by (cbn; exact aA). rewrite <- HcA.
+        apply spec_go_abs_origin. rewrite HcA. reflexivity.
+      - constructor.
+      - intros f Hf. pose proof (origins_agree_unfold A B ops f Hor Hf) as Ho. rewrite aA, aB in Ho.
+        destruct Hz as [Hz|[Hz1 Hz2]]; [rewrite Hz; reflexivity|].
+        rewrite Hz1. cbn [eff]. destruct Ho as [Ho|Ho]; [exfalso; apply Ho; exact Hz1|].
+        rewrite Hz2 in Ho. cbn [eff] in Ho. symmetry. exact Ho. }
+    rewrite HAz.
+    apply spec_intersect_go; try assumption; cbn; try reflexivity; congruence.
+  - (* relative, relative: one common origin *)
+    injection HI as <-.
+    assert (FI : fresh (combine_tr A B)) by (apply combine_fresh; assumption).
+    split; [exact FI|]. rewrite (accepted_spec _ ops FI Hnd).
+    set (oI := t0 (combine_tr A B)).
+    assert (Hf : forall f, first_timed ops = Some f -> eff (t0 A) f = eff oI f /\ eff (t0 B) f = eff oI f).
+    { intros f Hft. pose proof (origins_agree_unfold A B ops f Hor Hft) as Ho. rewrite aA, aB in Ho.
+      unfold oI, combine_tr; cbn. destruct (t0 A); cbn in *; auto. }
+    rewrite (spec_go_origin ops (cfg A) (t0 A) oI) by (try constructor; intros f Hft; apply (Hf f Hft)).
+    rewrite (spec_go_origin ops (cfg B) (t0 B) oI) by (try constructor; intros f Hft; apply (Hf f Hft)).
+    apply spec_intersect_go; cbn; congruence.
+Qed.
+
+Lemma intersect_raises_iff : forall A B,
+  intersect A B = ValueError <-> (absolute A <> absolute B /\ t0 A = None /\ t0 B = None).
+Proof.
+  intros A B. rewrite intersect_unfold.
+  destruct (absolute A) eqn:aA, (absolute B) eqn:aB; cbn [andb negb].
+  - split; [discriminate|intros [H _]; congruence].
+  - destruct B as [st sp ab o spc sd ed]; cbn in aB; subst ab.
+    unfold make_absolute, make_absolute_gen; cbn.
+    destruct (t0 A), o; cbn; (split; intros H;
+      [try discriminate; repeat split; congruence | try reflexivity; destruct H as [_ [H1 H2]]; discriminate]).
+  - destruct A as [st sp ab o spc sd ed]; cbn in aA; subst ab.
+    unfold make_absolute, make_absolute_gen; cbn.
+    destruct (t0 B), o; cbn; (split; intros H;
+      [try discriminate; repeat split; congruence | try reflexivity; destruct H as [_ [H1 H2]]; discriminate]).
+  - split; [discriminate|intros [H _]; congruence].
+Qed.
+
+(* ------------------------------------------------------------------------------------------------ *)
+(* parse                                                                                             *)
+(* ------------------------------------------------------------------------------------------------ *)
+Lemma no_sep_app : forall a b, no_sep (a ++ b) = no_sep a && no_sep b.
+Proof. intros; unfold no_sep; apply forallb_app. Qed.
+Lemma no_sep_rev : forall a, no_sep (rev a) = no_sep a.
+Proof.
+  induction a as [|c a IH]; [reflexivity|]. cbn [rev]. rewrite no_sep_app, IH. unfold no_sep; cbn.
+  rewrite andb_true_r. apply andb_comm.
+Qed.
+
+Lemma split_aux_field : forall a cur rest, no_sep a = true ->
+  split_aux cur (a ++ tr_sep :: rest) = (rev cur ++ a) :: split_aux [] rest.
+Proof.
+  induction a as [|c a IH]; intros cur rest H.
+  - cbn [app split_aux]. rewrite Z.eqb_refl, app_nil_r. reflexivity.
+  - cbn in H. apply andb_prop in H. destruct H as [Hc Ha]. cbn [app split_aux].
+    destruct (c =? tr_sep); [discriminate|]. rewrite IH by exact Ha. cbn [rev]. rewrite <- app_assoc. reflexivity.
+Qed.
+Lemma split_aux_last : forall a cur, no_sep a = true -> split_aux cur a = [rev cur ++ a].
+Proof.
+  induction a as [|c a IH]; intros cur H.
+  - cbn. rewrite app_nil_r. reflexivity.
+  - cbn in H. apply andb_prop in H. destruct H as [Hc Ha]. cbn [split_aux].
+    destruct (c =? tr_sep); [discriminate|]. rewrite IH by exact Ha. cbn [rev]. rewrite <- app_assoc. reflexivity.
+Qed.
+
+Lemma str_to_time_value : forall fld v, field_value fld v -> str_to_time fld = (Some v, false).
+Proof.
+  intros fld v [[-> ->]|[Hne [e [He ->]]]]; [reflexivity|].
+  unfold str_to_time. destruct fld; [congruence|]. rewrite He. reflexivity.
+Qed.
+
+Lemma kw_facts :
+  no_sep tr_kw_abs = true /\ no_sep tr_kw_rel = true /\
+  list_eqb tr_kw_abs tr_kw_abs = true /\ list_eqb tr_kw_rel tr_kw_abs = false /\ list_eqb tr_kw_rel tr_kw_rel = true.
+Proof. repeat split; reflexivity. Qed.
+
+(* every text of the documented form parses, to the range its fields describe *)
+Theorem parse_complete_proof : forall sh absarg vs ve, fields_ok sh vs ve ->
+  parse (render sh) absarg = POk (init (describe_text sh absarg vs ve)).
+Proof.
+  intros sh absarg vs ve H. destruct kw_facts as [K1 [K2 [K3 [K4 K5]]]].
+  unfold parse, parse_gen, split.
+  destruct sh as [a|a b|a b k]; cbn [render fields_ok describe_text] in *.
+  - destruct H as [Ha [Hva ->]]. rewrite (split_aux_last a [] Ha). cbn [rev app length nth_error Nat.eqb Nat.ltb Nat.leb].
+    rewrite (str_to_time_value a vs Hva). reflexivity.
+  - destruct H as [Ha [Hb [Hva Hvb]]].
+    rewrite (split_aux_field a [] b Ha), (split_aux_last b [] Hb).
+    cbn [rev app length nth_error Nat.eqb Nat.ltb Nat.leb].
+    rewrite (str_to_time_value a vs Hva), (str_to_time_value b ve Hvb). reflexivity.
+  - destruct H as [Ha [Hb [Hva Hvb]]].
+    rewrite (split_aux_field a [] _ Ha), (split_aux_field b [] _ Hb).
+    assert (Hk : no_sep (if k then tr_kw_abs else tr_kw_rel) = true) by (destruct k; assumption).
+    rewrite (split_aux_last _ [] Hk).
+    cbn [rev app length nth_error Nat.eqb Nat.ltb Nat.leb].
+    rewrite (str_to_time_value a vs Hva), (str_to_time_value b ve Hvb).
+    destruct k; [rewrite K3|rewrite K4, K5]; reflexivity.
+Qed.
+
+(* conversely: whatever parse accepts is a text of the documented form *)
+Fixpoint join (l : list (list Z)) : list Z :=
+  match l with
+  | [] => []
+  | a :: tl => match tl with [] => a | _ :: _ => a ++ tr_sep :: join tl end
+  end.
+
+Lemma split_aux_join : forall s cur, no_sep cur = true ->
+  join (split_aux cur s) = rev cur ++ s /\ Forall (fun f => no_sep f = true) (split_aux cur s) /\ split_aux cur s <> [].
+Proof.
+  induction s as [|c s IH]; intros cur Hc.
+  - cbn. rewrite app_nil_r. repeat split; [|discriminate]. constructor; [rewrite no_sep_rev; exact Hc|constructor].
+  - cbn [split_aux]. destruct (c =? tr_sep) eqn:E.
+    + destruct (IH [] eq_refl) as [J [F N]]. repeat split; [|constructor; [rewrite no_sep_rev; exact Hc|exact F]|discriminate].
+      cbn [join]. destruct (split_aux [] s) eqn:Es; [congruence|]. rewrite J. cbn.
+      apply Z.eqb_eq in E. subst c. reflexivity.
+    + assert (Hc' : no_sep (c :: cur) = true) by (unfold no_sep in *; cbn; rewrite E, Hc; reflexivity).
+      destruct (IH (c :: cur) Hc') as [J [F N]]. repeat split; [|exact F|exact N].
+      rewrite J. cbn [rev]. rewrite <- app_assoc. reflexivity.
+Qed.
+
+Lemma list_eqb_eq : forall a b, list_eqb a b = true -> a = b.
+Proof.
+  unfold list_eqb. induction a as [|x a IH]; intros [|y b] H; cbn in H; try discriminate; [reflexivity|].
+  apply andb_prop in H. destruct H as [Hl H]. apply andb_prop in H. destruct H as [Hxy H].
+  apply Z.eqb_eq in Hxy. subst y. f_equal. apply IH. rewrite Hl, H. reflexivity.
+Qed.
+
+Lemma str_to_time_field : forall fld v u, str_to_time fld = (Some v, u) -> field_value fld v.
+Proof.
+  intros fld v u H. unfold str_to_time in H. destruct fld as [|c fld].
+  - injection H as <- _. left; auto.
+  - destruct (pyfloat (c :: fld)) eqn:E; try discriminate. injection H as <- _.
+    right. split; [discriminate|]. exists e; auto.
+Qed.
+
+Theorem parse_sound_proof : forall s absarg r, parse s absarg = POk r ->
+  exists sh vs ve, s = render sh /\ fields_ok sh vs ve /\ r = init (describe_text sh absarg vs ve).
+Proof.
+  intros s absarg r H. unfold parse, parse_gen in H.
+  destruct (split_aux_join s [] eq_refl) as [J [F N]]. fold (split s) in *. cbn [rev app] in J.
+  destruct (split s) as [|a [|b [|k [|x l]]]] eqn:Es; [congruence| | | |].
+  - (* one field *)
+    cbn [length nth_error Nat.eqb Nat.ltb Nat.leb] in H.
+    destruct (str_to_time a) as [[va|] u] eqn:Ea; [|destruct u; discriminate].
+    injection H as <-. inversion F as [|? ? Fa _]; subst.
+    exists (S1 a), va, None. cbn [render fields_ok describe_text join]. repeat split; auto.
+    eapply str_to_time_field; exact Ea.
+  - cbn [length nth_error Nat.eqb Nat.ltb Nat.leb] in H.
+    destruct (str_to_time a) as [[va|] u] eqn:Ea; [|destruct u; discriminate].
+    destruct (str_to_time b) as [[vb|] u'] eqn:Eb; [|destruct u'; discriminate].
+    injection H as <-. inversion F as [|? ? Fa F']; subst. inversion F' as [|? ? Fb _]; subst.
+    exists (S2 a b), va, vb. cbn [render fields_ok describe_text join]. repeat split; auto;
+      eapply str_to_time_field; eassumption.
+  - cbn [length nth_error Nat.eqb Nat.ltb Nat.leb] in H.
+    inversion F as [|? ? Fa F']; subst. inversion F' as [|? ? Fb _]; subst.
+    destruct (list_eqb k tr_kw_abs) eqn:Ka.
+    + apply list_eqb_eq in Ka. subst k.
+      destruct (str_to_time a) as [[va|] u] eqn:Ea; [|destruct u; discriminate].
+      destruct (str_to_time b) as [[vb|] u'] eqn:Eb; [|destruct u'; discriminate].
+      injection H as <-.
+      exists (S3 a b true), va, vb. cbn [render fields_ok describe_text join]. repeat split; auto;
+        eapply str_to_time_field; eassumption.
+    + destruct (list_eqb k tr_kw_rel) eqn:Kr; [|discriminate].
+      apply list_eqb_eq in Kr. subst k.
+      destruct (str_to_time a) as [[va|] u] eqn:Ea; [|destruct u; discriminate].
+      destruct (str_to_time b) as [[vb|] u'] eqn:Eb; [|destruct u'; discriminate].
+      injection H as <-.
+      exists (S3 a b false), va, vb. cbn [render fields_ok describe_text join]. repeat split; auto;
+        eapply str_to_time_field; eassumption.
+  - (* more than three fields: ValueError *)
+    cbn [length Nat.eqb Nat.ltb Nat.leb] in H. discriminate.
+Qed.
+
+(* ------------------------------------------------------------------------------------------------ *)
+(* make_absolute keeps the accepted set                                                              *)
+(* ------------------------------------------------------------------------------------------------ *)
+Lemma cfg_fresh_accepted : forall r r' ops, fresh r -> fresh r' -> nondecr None ops = true ->
+  cfg r' = cfg r -> absolute r = true -> accepted r' ops = accepted r ops.
+Proof.
+  intros r r' ops F F' Hnd Hc Ha.
+  rewrite (accepted_spec r ops F Hnd), (accepted_spec r' ops F' Hnd), Hc.
+  apply spec_go_abs_origin. exact Ha.
+Qed.
+
+Theorem make_absolute_preserves_proof : forall r arg r' ops,
+  fresh r -> make_absolute r arg = Ok r' -> nondecr None ops = true ->
+  (absolute r = true \/ t0 r <> None \/ forall f, first_timed ops = Some f -> arg = Some f) ->
+  fresh r' /\ absolute r' = true /\ accepted r' ops = accepted r ops.
+Proof.
+  intros r arg r' ops F H Hnd Hor. pose proof F as [F1 [F2 F3]].
+  destruct (absolute r) eqn:Ha.
+  - destruct (make_absolute_abs r arg Ha) as [r2 [H2 [Hc [Hs [He Hsp]]]]].
+    rewrite H in H2. injection H2 as <-.
+    assert (F' : fresh r').
+    { unfold fresh. rewrite Hs, He, Hsp, F3. repeat split; try assumption.
+      change (start r') with (lo (cfg r')). change (stop r') with (hi (cfg r')). rewrite Hc. reflexivity. }
+    repeat split; try apply F'.
+    + change (iabs (cfg r') = true). rewrite Hc. exact Ha.
+    + apply cfg_fresh_accepted; assumption.
+  - destruct (make_absolute_rel r arg r' Ha H) as [z [Hz [Hc [Ht [Hs [He Hsp]]]]]].
+    assert (F' : fresh r').
+    { unfold fresh. rewrite Hs, He, Hsp, F3. repeat split; try assumption.
+      change (start r') with (lo (cfg r')). change (stop r') with (hi (cfg r')). rewrite Hc. cbn.
+      destruct (start r), (stop r); reflexivity. }
+    repeat split; try apply F'.
+    + change (iabs (cfg r') = true). rewrite Hc. reflexivity.
+    + rewrite (accepted_spec r ops F Hnd), (accepted_spec r' ops F' Hnd), Ht, Hc.
+      rewrite (spec_go_shift ops (cfg r) z []) by exact Ha.
+      apply spec_go_origin; [constructor|].
+      intros f Hf. destruct Hz as [Hz|[Hz1 Hz2]]; [rewrite Hz; reflexivity|].
+      rewrite Hz1. cbn [eff]. destruct Hor as [Hor|[Hor|Hor]]; [discriminate|congruence|].
+      specialize (Hor f Hf). congruence.
+Qed.
+
+Lemma make_absolute_idempotent_proof : forall r arg arg' r',
+  absolute r = false -> make_absolute r arg = Ok r' -> make_absolute r' arg' = Ok r'.
+Proof.
+  intros [st sp ab o spc sd ed] arg arg' r' Ha H. cbn in Ha; subst ab.
+  unfold make_absolute, make_absolute_gen in *; cbn in *.
+  destruct arg as [a|], o as [z|]; cbn in H; try discriminate; injection H as <-;
+    destruct st, sp, arg'; reflexivity.
+Qed.
+
+(* ------------------------------------------------------------------------------------------------ *)
+(* the code before the repairs (witnesses of the three findings)                                     *)
+(* ------------------------------------------------------------------------------------------------ *)
+Definition accepted_legacy (r : tr) (ops : list op) : list bool := fst (run_gen legacy r ops).
+
+(* open start, end 2 s absolute: Pose@3 s then an event — the event was accepted *)
+Lemma legacy_end_latch :
+  let a := mkargs ANone (AFloat (Fin 16)) (Some true) None in
+  let ops := [Msg (Timed 24); Msg Untimed] in
+  accepted_legacy (init_gen legacy a) ops = [false; true] /\ spec_run (describe a) ops = [false; false] /\
+  accepted (init a) ops = [false; false].
+Proof. repeat split; vm_compute; reflexivity. Qed.
+
+(* relative [1,3) s with t0 = 10 s intersected with absolute [0, 12.5) s: nothing was accepted *)
+Lemma legacy_make_absolute :
+  let A := mkargs (AFloat (Fin 8)) (AFloat (Fin 24)) (Some false) (Some 80) in
+  let B := mkargs (AFloat (Fin 0)) (AFloat (Fin 100)) (Some true) None in
+  let ops := [Msg (Timed 80); Msg (Timed 88); Msg Untimed; Msg (Timed 96); Msg (Timed 100); Msg (Timed 104)] in
+  (exists I, intersect_gen legacy (init_gen legacy A) (init_gen legacy B) = Ok I /\
+             accepted_legacy I ops = [false; false; false; false; false; false]) /\
+  and_lists (spec_run (describe A) ops) (spec_run (describe B) ops) = [false; true; true; true; false; false] /\
+  (exists I, intersect (init A) (init B) = Ok I /\ accepted I ops = [false; true; true; true; false; false]).
+Proof. repeat split; try (eexists; split); vm_compute; reflexivity. Qed.
+
+(* end = -inf was read as "no end" *)
+Lemma legacy_neg_inf_end :
+  let a := mkargs (AFloat (Fin 8)) (AFloat NInf) (Some true) None in
+  let ops := [Msg (Timed 8)] in
+  accepted_legacy (init_gen legacy a) ops = [true] /\ spec_run (describe a) ops = [false] /\ accepted (init a) ops = [false].
+Proof. repeat split; vm_compute; reflexivity. Qed.
+
+(* ------------------------------------------------------------------------------------------------ *)
+(* statements as used by Properties/C13.v                                                            *)
+(* ------------------------------------------------------------------------------------------------ *)
+Lemma describe_is_interval_proof : forall (a : args),
+  (forall c, (describe_abs a = true -> 0 <= c) -> in_iv (describe a) c = in_iv (describe_raw a) c) /\
+  (is_none (lo (describe a)) = true <->
+   bound (a_start a) = None \/ (describe_abs a = true /\ bound (a_start a) = Some (Fin 0))).
+Proof. intros a; split; [exact (describe_membership a) | exact (describe_open_start a)]. Qed.
+
+Lemma fresh_range_matches_spec_proof : forall (r : tr) (ops : list op),
+  fresh r -> nondecr None ops = true ->
+  accepted r ops = spec_run (mkiv (start r) (stop r) (absolute r) (t0 r)) ops.
+Proof.
+  intros r ops F H. rewrite (accepted_spec r ops F H). unfold spec_run; cbn [org].
+  apply spec_go_cfg; reflexivity.
+Qed.
+
+Lemma parse_spec_proof : forall (sh : shape) (absarg : option bool) (vs ve : option ext) (ops : list op),
+  fields_ok sh vs ve -> nondecr None ops = true ->
+  exists r, parse (render sh) absarg = POk r /\
+            accepted r ops = spec_run (describe (describe_text sh absarg vs ve)) ops.
+Proof.
+  intros sh absarg vs ve ops H Hnd. eexists. split; [exact (parse_complete_proof sh absarg vs ve H)|].
+  exact (in_range_matches_spec_proof _ ops Hnd).
+Qed.
+
+Lemma legacy_refuted_proof :
+  (let a := mkargs ANone (AFloat (Fin 16)) (Some true) None in
+   let ops := [Msg (Timed 24); Msg Untimed] in
+   accepted_legacy (init_gen legacy a) ops = [false; true] /\ spec_run (describe a) ops = [false; false] /\
+   accepted (init a) ops = [false; false]) /\
+  (let A := mkargs (AFloat (Fin 8)) (AFloat (Fin 24)) (Some false) (Some 80) in
+   let B := mkargs (AFloat (Fin 0)) (AFloat (Fin 100)) (Some true) None in
+   let ops := [Msg (Timed 80); Msg (Timed 88); Msg Untimed; Msg (Timed 96); Msg (Timed 100); Msg (Timed 104)] in
+   (exists I, intersect_gen legacy (init_gen legacy A) (init_gen legacy B) = Ok I /\
+              accepted_legacy I ops = [false; false; false; false; false; false]) /\
+   and_lists (spec_run (describe A) ops) (spec_run (describe B) ops) = [false; true; true; true; false; false] /\
+   (exists I, intersect (init A) (init B) = Ok I /\ accepted I ops = [false; true; true; true; false; false])) /\
+  (let a := mkargs (AFloat (Fin 8)) (AFloat NInf) (Some true) None in
+   let ops := [Msg (Timed 8)] in
+   accepted_legacy (init_gen legacy a) ops = [true] /\ spec_run (describe a) ops = [false] /\ accepted (init a) ops = [false]).
+Proof. exact (conj legacy_end_latch (conj legacy_make_absolute legacy_neg_inf_end)). Qed.
